@@ -17,6 +17,7 @@ def main():
     ap.add_argument('--tier', default=os.environ.get('VERIF_TIER', 'quick'))
     a = ap.parse_args()
     seed = int(os.environ.get('VERIF_SEED', '0') or 0)
+    os.environ['VERIF_TIER'] = a.tier          # contracts may size enumerated shapes by tier
     if a.prop == 'replay':
         from runner import replay
         return replay.main(a.rest[0])
